@@ -19,6 +19,12 @@
 //!   cl     -|!|n (0..=64)           CLUSTER_LIST with n entries
 //!   peer   4:u32 | 6:u128           peer address
 //!   extra  u32                      0 = nothing, n = NEXT_HOP n (content the comparison never reads)
+//!
+//! u-token: a route given as a received UPDATE - `u<sess>,<pdu hex>,<src>,<dop>,<lasn>,<bgpid>,<peer>` (see the
+//! section "routes given as a received UPDATE" below).  Ops: `try|cmp|tri <strat> <route>..` on 12-field routes,
+//! `utry|ucmp|utri <strat> <token>..` where every token is a u-token or a 12-field route; `hops <path>`;
+//! `wire-malformed <strat> <src>`.  Replies of the u-ops: as `try|cmp|tri`, or `rej <0|1 per candidate>` (`rej` for
+//! utry) when an UPDATE is not accepted by `UpdateMessage::from_octets`, `pmerr` if `from_update_pdu` fails.
 use crate::common::*;
 use inetnum::asn::Asn;
 use octseq::{OctetsInto, Parser};
@@ -79,6 +85,10 @@ pub struct RouteSpec {
     /// bit 0 / 1 / 2 / 3: the LOCAL_PREF / MED / ORIGINATOR_ID / CLUSTER_LIST type code holds an
     /// `Invalid` attribute (the field itself is then `None`: the comparison finds no such attribute)
     pub bogus: u8,
+    /// only for a route read from a received UPDATE (u-token): every attribute the route holds, first
+    /// occurrence per type code, as (kind `t`/`i`/`u`, code, flags kept, canonical value) - so that equality of
+    /// two specs stays equality of route content.  Empty for a route given by its 12 fields.
+    pub rest: Vec<(u8, u8, u8, Vec<u8>)>,
 }
 
 /// strict decimal: digits only, 1..=39 of them (the Lean side does the same)
@@ -145,7 +155,7 @@ pub fn parse_route(s: &str) -> Option<RouteSpec> {
         _ => return None,
     };
     let extra = nat(f[11], u32::MAX as u128)? as u32;
-    Some(RouteSpec { ibgp, dop, lp, path, origin, med, lasn, oid, bgpid, cl, peer_v6, peer, extra, bogus })
+    Some(RouteSpec { ibgp, dop, lp, path, origin, med, lasn, oid, bgpid, cl, peer_v6, peer, extra, bogus, rest: vec![] })
 }
 
 fn show_opt(o: Option<u32>) -> String { o.map(|v| v.to_string()).unwrap_or("-".into()) }
@@ -241,15 +251,19 @@ pub fn build(r: &RouteSpec) -> (PaMap, TiebreakerInfo) {
         m.set(ids);
     }
     if r.extra != 0 { m.set(ConventionalNextHop(Ipv4Addr::from(r.extra))); }
+    (m, build_tb(r))
+}
+
+/// the tie-breaker record of a route spec
+pub fn build_tb(r: &RouteSpec) -> TiebreakerInfo {
     let peer = if r.peer_v6 { IpAddr::V6(Ipv6Addr::from(r.peer)) } else { IpAddr::V4(Ipv4Addr::from(r.peer as u32)) };
-    let tb = TiebreakerInfo::new(
+    TiebreakerInfo::new(
         if r.ibgp { RouteSource::Ibgp } else { RouteSource::Ebgp },
         r.dop.map(DegreeOfPreference),
         Asn::from_u32(r.lasn),
         r.bgpid.to_be_bytes().into(),
         peer,
-    );
-    (m, tb)
+    )
 }
 
 /// `ok` or `refused`.  The property says WHICH routes are refused, not with which error: the reason
@@ -265,12 +279,16 @@ pub fn ord(o: Ordering) -> &'static str { match o { Ordering::Less => "lt", Orde
 /// result, or both joined by ` | shared `.
 fn cmp_line<OS: OrdStrat>(specs: &[RouteSpec]) -> String {
     let built: Vec<(PaMap, TiebreakerInfo)> = specs.iter().map(build).collect();
+    cmp_built::<OS>(&built)
+}
+
+fn cmp_built<OS: OrdStrat>(built: &[(PaMap, TiebreakerInfo)]) -> String {
     let why: Vec<&str> = built.iter().map(|(m, t)| refusal::<OS>(m, *t)).collect();
     if why.iter().any(|w| *w != "ok") { return format!("refused {}", why.join(" ")); }
     let own: Vec<&PaMap> = built.iter().map(|(m, _)| m).collect();
     let shared: Vec<&PaMap> = built.iter().map(|(m, _)| &built.iter().find(|(o, _)| o == m).unwrap().0).collect();
-    let a = cmp_on::<OS>(&built, &own);
-    let b = cmp_on::<OS>(&built, &shared);
+    let a = cmp_on::<OS>(built, &own);
+    let b = cmp_on::<OS>(built, &shared);
     if a == b { a } else { format!("{} | shared {}", a, b) }
 }
 
@@ -401,15 +419,444 @@ pub fn rfc_prefer(a: &RouteSpec, b: &RouteSpec, med: bool) -> Ordering {
     }
 }
 
+/// the statement of C10 on one two-route reply (`refused ..` or `<ab> <same|diff> <ba> <partial_cmp>`), for the
+/// routes `a`, `b` as the reference reads them
+fn judge_cmp(s: &str, a: &RouteSpec, b: &RouteSpec, r: &[&str]) -> Result<(), String> {
+    let el = [ref_eligible(a), ref_eligible(b)];
+        if r[0] == "refused" {
+            if r.len() != 3 { return Err("reply".into()); }
+            for (i, x) in [a, b].iter().enumerate() { judge_construction(x, r[1 + i]).map_err(|e| format!("route {}: {}", i, e))?; }
+            return Ok(());
+        }
+        if !(el[0] && el[1]) { return Err("an ineligible route reached comparison".into()); }
+        let med = s == "rfc4271";
+        let want = rfc_prefer(a, b, med);
+        if r.len() != 4 { return Err("reply".into()); }
+        let (ab, ba) = (parse_ord(r[0]).ok_or("reply")?, parse_ord(r[2]).ok_or("reply")?);
+        if ab != want { return Err(format!("cmp = {} but RFC 4271 9.1 elimination gives {}", r[0], ord(want))); }
+        if ba != ab.reverse() { return Err(format!("antisymmetry: cmp(a,b) = {}, cmp(b,a) = {}", r[0], r[2])); }
+        if (r[1] == "same") != (ab == Ordering::Equal) { return Err("== disagrees with cmp".into()); }
+        if r[3] != r[0] { return Err("partial_cmp disagrees with cmp".into()); }
+        if a == b && ab != Ordering::Equal { return Err("a route is not equal to itself".into()); }
+        Ok(())
+}
+
+/// ... and on a three-route reply (`refused ...` or `<ab> <bc> <ac>`)
+fn judge_tri(s: &str, rs: &[RouteSpec], r: &[&str]) -> Result<(), String> {
+        if r[0] == "refused" {
+            if r.len() != 4 { return Err("reply".into()); }
+            for i in 0..3 { judge_construction(&rs[i], r[1 + i]).map_err(|e| format!("route {}: {}", i, e))?; }
+            return Ok(());
+        }
+        if !rs.iter().all(ref_eligible) { return Err("an ineligible route reached comparison".into()); }
+        if r.len() != 3 { return Err("reply".into()); }
+        let med = s == "rfc4271";
+        let o: Vec<Ordering> = r.iter().map(|x| parse_ord(x).ok_or("reply")).collect::<Result<_, _>>()?;
+        let (ab, bc, ac) = (o[0], o[1], o[2]);
+        for (got, (x, y), nm) in [(ab, (0, 1), "ab"), (bc, (1, 2), "bc"), (ac, (0, 2), "ac")] {
+            let want = rfc_prefer(&rs[x], &rs[y], med);
+            if got != want { return Err(format!("cmp {} = {} but RFC elimination gives {}", nm, ord(got), ord(want))); }
+        }
+        if !med {
+            // strict weak order: < transitive, equivalence transitive, equivalence compatible with <
+            use Ordering::*;
+            let want_ac = match (ab, bc) {
+                (Less, Less) | (Less, Equal) | (Equal, Less) => Some(Less),
+                (Greater, Greater) | (Greater, Equal) | (Equal, Greater) => Some(Greater),
+                (Equal, Equal) => Some(Equal),
+                _ => None,
+            };
+            if let Some(w) = want_ac { if ac != w { return Err(format!("weak order law broken: ab={} bc={} ac={}", r[0], r[1], r[2])); } }
+        }
+        Ok(())
+}
+
 fn parse_ord(s: &str) -> Option<Ordering> {
     match s { "lt" => Some(Ordering::Less), "eq" => Some(Ordering::Equal), "gt" => Some(Ordering::Greater), _ => None }
+}
+
+
+// ------------------------------------------- routes given as a received UPDATE (u-tokens)
+//
+//   u<sess>,<pdu hex>,<src>,<dop>,<lasn>,<bgpid>,<peer>
+//   <sess>   nothing = session with four-octet AS numbers (`SessionConfig::modern()`), `2` = two-octet
+//            (`legacy()`), `a` / `2a` = the same with ADD-PATH for all families (as C17's PDU tokens)
+//   the other five fields: the tie-breaker record, as in the 12-field route token
+//
+// The real route: `UpdateMessage::from_octets` -> `PaMap::from_update_pdu` -> `OrdRoute::try_new`.
+// The independent reading (`read_pdu`): this file's own walk over the attribute section (RFC 4271 4.3 framing,
+// RFC 7606 3.g first occurrence, the length rules of the RFCs) into the same `RouteSpec` the reference
+// comparison `rfc_prefer` works on.  It shares no code with routecore.
+
+#[derive(Clone, Debug)]
+pub struct PduCand { pub four: bool, pub ap: bool, pub pdu: Vec<u8>, pub tb: RouteSpec }
+
+#[derive(Clone, Debug)]
+pub enum Cand { Abs(RouteSpec), Pdu(PduCand) }
+
+pub fn parse_cand(s: &str) -> Option<Cand> {
+    let f: Vec<&str> = s.split(',').collect();
+    if f.len() != 7 { return parse_route(s).map(Cand::Abs); }
+    let (four, ap) = match f[0] { "u" => (true, false), "u2" => (false, false), "ua" => (true, true), "u2a" => (false, true), _ => return None };
+    let pdu = unhex(f[1])?;
+    let tb = parse_route(&format!("{},{},-,-,-,-,{},-,{},-,{},0", f[2], f[3], f[4], f[5], f[6]))?;
+    Some(Cand::Pdu(PduCand { four, ap, pdu, tb }))
+}
+
+pub fn show_tb(r: &RouteSpec) -> String {
+    format!("{},{},{},{},{}:{}", if r.ibgp { "i" } else { "e" }, show_opt(r.dop), r.lasn, r.bgpid, if r.peer_v6 { 6 } else { 4 }, r.peer)
+}
+
+pub fn show_pdu_cand(four: bool, ap: bool, pdu: &[u8], tb: &RouteSpec) -> String {
+    format!("u{}{},{},{}", if four { "" } else { "2" }, if ap { "a" } else { "" }, hex(pdu), show_tb(tb))
+}
+
+pub enum BuiltCand { Rej, PmErr, Ok(PaMap, TiebreakerInfo) }
+
+pub fn build_cand(c: &Cand) -> BuiltCand {
+    match c {
+        Cand::Abs(r) => { let (m, t) = build(r); BuiltCand::Ok(m, t) }
+        Cand::Pdu(p) => {
+            let sc = crate::props::c17::session(p.four, p.ap);
+            let Ok(u) = routecore::bgp::message::UpdateMessage::from_octets(p.pdu.clone(), &sc) else { return BuiltCand::Rej };
+            match PaMap::from_update_pdu(&u) { Ok(m) => BuiltCand::Ok(m, build_tb(&p.tb)), Err(_) => BuiltCand::PmErr }
+        }
+    }
+}
+
+/// `Ok(built)` or the reply of a line one of whose UPDATEs is not accepted (`rej <0|1 per candidate>`) / whose
+/// accepted UPDATE `from_update_pdu` refuses (`pmerr`: the model has no such case)
+pub fn build_all(cands: &[Cand]) -> Result<Vec<(PaMap, TiebreakerInfo)>, String> {
+    let mut built = Vec::new();
+    let mut rej = Vec::new();
+    for c in cands {
+        match build_cand(c) {
+            BuiltCand::Rej => rej.push("1"),
+            BuiltCand::PmErr => return Err("pmerr".into()),
+            BuiltCand::Ok(m, t) => { rej.push("0"); built.push((m, t)); }
+        }
+    }
+    if rej.contains(&"1") { return Err(format!("rej {}", rej.join(" "))); }
+    Ok(built)
+}
+
+// ---- the independent reading of the PDU
+
+/// the attribute section cut into (flags, code, value); None if the sections or an attribute do not fit
+fn own_walk(pdu: &[u8]) -> Option<Vec<(u8, u8, Vec<u8>)>> {
+    if pdu.len() < 23 { return None; }
+    let wl = ((pdu[19] as usize) << 8) | pdu[20] as usize;
+    let p = 21 + wl;
+    if pdu.len() < p + 2 { return None; }
+    let al = ((pdu[p] as usize) << 8) | pdu[p + 1] as usize;
+    let sec = pdu.get(p + 2..p + 2 + al)?;
+    let mut out = Vec::new();
+    let mut i = 0;
+    while i < sec.len() {
+        let fl = *sec.get(i)?;
+        let code = *sec.get(i + 1)?;
+        let (len, h) = if fl & 0x10 != 0 { (((*sec.get(i + 2)? as usize) << 8) | *sec.get(i + 3)? as usize, 4) } else { (*sec.get(i + 2)? as usize, 3) };
+        out.push((fl, code, sec.get(i + h..i + h + len)?.to_vec()));
+        i += h + len;
+    }
+    Some(out)
+}
+
+/// an AS path attribute value with AS numbers of `w` octets, as hops: RFC 4271 4.3 b / RFC 5065 segment types
+/// 1..4, a count, count AS numbers.  The ASes of a (non-empty) AS_SEQUENCE are the hops of the route, any
+/// other segment is one hop.
+fn own_path(v: &[u8], w: usize) -> Option<Vec<HopSpec>> {
+    let mut hops = Vec::new();
+    let mut i = 0;
+    while i < v.len() {
+        let t = *v.get(i)?;
+        let n = *v.get(i + 1)? as usize;
+        let body = v.get(i + 2..i + 2 + n * w)?;
+        let asns: Vec<u32> = body.chunks(w).map(|c| c.iter().fold(0u32, |a, b| (a << 8) | *b as u32)).collect();
+        match t {
+            2 if n > 0 => hops.extend(asns.into_iter().map(HopSpec::Asn)),
+            1 => hops.push(HopSpec::Seg('S', asns)),
+            2 => hops.push(HopSpec::Seg('Q', asns)),
+            3 => hops.push(HopSpec::Seg('C', asns)),
+            4 => hops.push(HopSpec::Seg('D', asns)),
+            _ => return None,
+        }
+        i += 2 + n * w;
+    }
+    Some(hops)
+}
+
+/// length rules of the attribute types routecore knows (RFC 4271 5, 4456, 1997, 4360, 6793, 5701, 8092, 9234, 6368 ...)
+fn own_valid(code: u8, v: &[u8], four: bool) -> Option<bool> {
+    let n = v.len();
+    Some(match code {
+        1 => n == 1,
+        2 => own_path(v, if four { 4 } else { 2 }).is_some(),
+        17 => own_path(v, 4).is_some(),
+        3 | 4 | 5 | 9 | 20 | 35 => n == 4,
+        6 => n == 0,
+        7 => n == if four { 8 } else { 6 },
+        18 => n == 8,
+        8 | 10 => n % 4 == 0,
+        16 => n % 8 == 0,
+        21 => n == 5,
+        25 => n % 20 == 0,
+        32 => n % 12 == 0,
+        128 => n >= 4,
+        255 => true,
+        _ => return None,
+    })
+}
+
+fn ser_hops(h: &[HopSpec]) -> Vec<u8> {
+    let mut o = Vec::new();
+    for x in h {
+        match x {
+            HopSpec::Asn(a) => { o.push(0); o.extend(a.to_be_bytes()); }
+            HopSpec::Seg(c, asns) => { o.push(c.to_ascii_uppercase() as u8); o.push(asns.len() as u8); for a in asns { o.extend(a.to_be_bytes()); } }
+        }
+    }
+    o
+}
+
+/// The route a received UPDATE denotes, by the RFCs: of several attributes with one type code the first counts
+/// (RFC 7606 3.g); ORIGIN is one octet, LOCAL_PREF / MED / ORIGINATOR_ID four, CLUSTER_LIST a whole number of
+/// four-octet ids; an attribute of another shape is there but unusable (`Bogus` / the `bogus` bit); the AS_PATH
+/// is read in the AS number width of the session; an AS4_PATH is NOT merged into it (routecore leaves RFC 6793
+/// 4.2.3 reconstruction to its user: `get::<HopPath>()` is the AS_PATH attribute).  None: the attribute section
+/// cannot be walked (the UPDATE is malformed as a whole).
+pub fn read_pdu(c: &PduCand) -> Option<RouteSpec> {
+    let attrs = own_walk(&c.pdu)?;
+    let mut r = c.tb.clone();
+    let first = |code: u8| attrs.iter().find(|a| a.1 == code).map(|a| &a.2);
+    let be = |v: &Vec<u8>| u32::from_be_bytes([v[0], v[1], v[2], v[3]]);
+    r.origin = match first(1) { None => Slot::Absent, Some(v) if v.len() == 1 => Slot::Val(v[0]), Some(_) => Slot::Bogus };
+    r.path = match first(2) { None => Slot::Absent, Some(v) => match own_path(v, if c.four { 4 } else { 2 }) { Some(h) => Slot::Val(h), None => Slot::Bogus } };
+    r.bogus = 0;
+    let mut four_octets = |code: u8, bit: u8| match first(code) { None => None, Some(v) if v.len() == 4 => Some(be(v)), Some(_) => { r.bogus |= bit; None } };
+    let lp = four_octets(5, 1);
+    let med = four_octets(4, 2);
+    let oid = four_octets(9, 4);
+    r.lp = lp; r.med = med; r.oid = oid;
+    r.cl = match first(10) { None => None, Some(v) if v.len() % 4 == 0 => Some((v.len() / 4) as u32), Some(_) => { r.bogus |= 8; None } };
+    r.extra = 0;
+    // the content of the route: every attribute but MP_REACH_NLRI / MP_UNREACH_NLRI, first occurrence per code
+    let mut rest: Vec<(u8, u8, u8, Vec<u8>)> = Vec::new();
+    for (fl, code, v) in &attrs {
+        if *code == 14 || *code == 15 || rest.iter().any(|x| x.1 == *code) { continue; }
+        rest.push(match own_valid(*code, v, c.four) {
+            None => (b'u', *code, *fl, v.clone()),
+            Some(false) => (b'i', *code, 0, v.clone()),
+            Some(true) => (b't', *code, 0, match code {
+                2 => ser_hops(&own_path(v, if c.four { 4 } else { 2 }).unwrap()),
+                17 => ser_hops(&own_path(v, 4).unwrap()),
+                7 if !c.four => { let mut x = vec![0u8, 0]; x.extend(v); x }
+                _ => v.clone(),
+            }),
+        });
+    }
+    rest.sort();
+    r.rest = rest;
+    Some(r)
+}
+
+/// the specs the reference judges for the candidates of a line; None = some UPDATE cannot be walked
+pub fn cand_specs(cands: &[Cand]) -> Option<Vec<RouteSpec>> {
+    cands.iter().map(|c| match c { Cand::Abs(r) => Some(r.clone()), Cand::Pdu(p) => read_pdu(p) }).collect()
+}
+
+// ---- generator of UPDATEs for the decision process
+
+/// one attribute of a planned UPDATE: flags, code, value, two-octet length forced
+#[derive(Clone, Debug)]
+pub struct PAttr { pub fl: u8, pub code: u8, pub val: Vec<u8>, pub ext: bool }
+
+fn canon_flags(code: u8) -> u8 { match code { 1 | 2 | 3 | 5 | 6 => 0x40, 4 | 9 | 10 | 14 | 15 => 0x80, _ => 0xC0 } }
+
+fn pa(rng: &mut Rng, code: u8, val: Vec<u8>) -> PAttr {
+    let fl = if rng.chance(1, 12) { *rng.pick(&[0x40u8, 0x80, 0xC0, 0xE0]) } else { canon_flags(code) };
+    PAttr { fl, code, val, ext: rng.chance(1, 15) }
+}
+
+/// an AS path value with AS numbers of the given width: few ASes from a small pool (ties in length and
+/// neighbour AS are frequent), all four segment types, empty segments, the empty path
+pub fn gen_wire_path(rng: &mut Rng, four: bool) -> Vec<u8> {
+    let mut v = Vec::new();
+    let nseg = match rng.below(12) { 0 => 0, 1..=7 => 1, 8..=10 => 2, _ => 3 };
+    for i in 0..nseg {
+        let t = match rng.below(if i == 0 { 20 } else { 6 }) { 0 => 1u8, 1 => 3, 2 => 4, _ => 2 };
+        let n = match rng.below(16) { 0 => 0, 1 => 6, _ => rng.usize(1, 3) };
+        v.push(t); v.push(n as u8);
+        for _ in 0..n {
+            let a: u32 = if four { *rng.pick(&[10u32, 20, 30, 65000, 4200000000, 23456]) } else { *rng.pick(&[10u32, 20, 30, 65000, 23456]) };
+            if four { v.extend(a.to_be_bytes()); } else { v.extend((a as u16).to_be_bytes()); }
+        }
+    }
+    v
+}
+
+fn small_u32(rng: &mut Rng) -> Vec<u8> { (*rng.pick(&[0u32, 1, 100, 100, 200, u32::MAX, 0x01000000])).to_be_bytes().to_vec() }
+
+fn gen_decision_value(rng: &mut Rng, code: u8, four: bool) -> Vec<u8> {
+    match code {
+        1 => vec![*rng.pick(&[0u8, 0, 1, 2, 2, 3, 255])],
+        2 => gen_wire_path(rng, four),
+        17 => gen_wire_path(rng, true),
+        10 => { let n = rng.usize(0, 3); (0..n).flat_map(|i| (0x0a000001u32 + i as u32).to_be_bytes()).collect() }
+        9 => (*rng.pick(&[1u32, 2, 3, 256, 0x01000000, 0x00ff0000])).to_be_bytes().to_vec(),
+        _ => small_u32(rng),
+    }
+}
+
+/// a value the type's length rule refuses
+fn gen_bad_value(rng: &mut Rng, code: u8, four: bool) -> Vec<u8> {
+    match code {
+        1 => if rng.bool() { vec![] } else { vec![0, 0] },
+        2 | 17 => { let mut v = gen_wire_path(rng, four || code == 17); match rng.below(3) { 0 => { v.push(2); v.push(3); v.push(0); } 1 => { v.push(2); } _ => { v.push(9); v.push(0); } } v }
+        10 => { let n = *rng.pick(&[1usize, 3, 5, 6]); rng.bytes(n) }
+        _ => { let n = *rng.pick(&[0usize, 2, 3, 5, 8]); rng.bytes(n) }
+    }
+}
+
+/// the attributes of an UPDATE whose route takes part in the decision process: mostly well formed, with each
+/// of the six attributes the comparison reads now and then missing, malformed, repeated (with a different
+/// value) or - AS_PATH - in the other AS number width; AS4_PATH next to AS_PATH; content the comparison never
+/// reads (NEXT_HOP, communities, an unknown attribute, MP_REACH_NLRI); any order
+pub fn gen_plan(rng: &mut Rng, four: bool) -> Vec<PAttr> {
+    let mut a: Vec<PAttr> = Vec::new();
+    for (code, present_of_8) in [(1u8, 8u64), (2, 8), (5, 4), (4, 4), (9, 2), (10, 2)] {
+        if !rng.chance(present_of_8, 8) { continue; }
+        let roll = rng.below(if code <= 2 { 60 } else { 30 });
+        match roll {
+            0 => if code <= 2 { continue },                                               // a mandatory attribute is missing
+            1 | 2 => { let v = gen_bad_value(rng, code, four); a.push(pa(rng, code, v)); }
+            3..=6 => {                                                                     // repeated, both well formed
+                let v = gen_decision_value(rng, code, four); a.push(pa(rng, code, v));
+                let v = gen_decision_value(rng, code, four); a.push(pa(rng, code, v));
+            }
+            7 | 8 => {                                                                     // repeated, one of them malformed
+                let (v, w) = (gen_decision_value(rng, code, four), gen_bad_value(rng, code, four));
+                let (v, w) = if rng.bool() { (v, w) } else { (w, v) };
+                a.push(pa(rng, code, v)); a.push(pa(rng, code, w));
+            }
+            9 | 10 if code == 2 => { let v = gen_wire_path(rng, !four); a.push(pa(rng, 2, v)); }  // what a speaker of the other width sends
+            _ => { let v = gen_decision_value(rng, code, four); a.push(pa(rng, code, v)); }
+        }
+    }
+    // AS4_PATH: never merged into the AS_PATH
+    if rng.chance(if four { 1 } else { 3 }, 8) { let v = if rng.chance(1, 10) { gen_bad_value(rng, 17, true) } else { gen_wire_path(rng, true) }; a.push(pa(rng, 17, v)); }
+    if rng.chance(1, 2) { let v = vec![10, 0, 0, rng.range(1, 3) as u8]; a.push(pa(rng, 3, v)); }
+    if rng.chance(1, 5) { let n = rng.usize(1, 3); let v = rng.bytes(4 * n); a.push(pa(rng, 8, v)); }
+    if rng.chance(1, 8) { let n = rng.usize(0, 5); let v = rng.bytes(n); a.push(PAttr { fl: *rng.pick(&[0xC0u8, 0x80, 0xE0]), code: *rng.pick(&[99u8, 22, 200]), val: v, ext: false }); }
+    if rng.chance(1, 10) { a.push(PAttr { fl: 0x40, code: 6, val: vec![], ext: false }); }
+    if rng.chance(1, 8) {
+        // MP_REACH_NLRI: IPv6 unicast, one next hop, 2001:db8::/32
+        let mut v = vec![0u8, 2, 1, 16]; v.extend([0x20, 1, 0xd, 0xb8, 0, 0, 0, 0, 0, 0, 0, 0, 0, 0, 0, 1]); v.push(0); v.extend([32, 0x20, 1, 0xd, 0xb8]);
+        let at = rng.usize(0, a.len()); a.insert(at, PAttr { fl: 0x80, code: 14, val: v, ext: false });
+    }
+    if rng.chance(1, 3) { for _ in 0..rng.usize(1, 3) { let n = a.len(); if n > 1 { let (i, j) = (rng.usize(0, n - 1), rng.usize(0, n - 1)); a.swap(i, j); } } }
+    a
+}
+
+/// a small edit of a plan: one attribute's value changed / dropped / repeated / moved - most of the decision stays tied
+pub fn edit_plan(rng: &mut Rng, plan: &[PAttr], four: bool) -> Vec<PAttr> {
+    let mut p = plan.to_vec();
+    let decision = [1u8, 2, 4, 5, 9, 10];
+    match rng.below(8) {
+        0 | 1 | 2 => { let code = *rng.pick(&decision); let v = gen_decision_value(rng, code, four);
+            match p.iter_mut().find(|x| x.code == code) { Some(x) => x.val = v, None => { let x = pa(rng, code, v); p.push(x); } } }
+        3 => { let code = *rng.pick(&[4u8, 5, 9, 10, 17, 3]); p.retain(|x| x.code != code); }
+        4 => if !p.is_empty() {                                     // repeat an attribute with another value, before or after the original
+            let i = rng.usize(0, p.len() - 1); let code = p[i].code;
+            let v = if decision.contains(&code) { gen_decision_value(rng, code, four) } else { let n = p[i].val.len(); rng.bytes(n) };
+            let x = pa(rng, code, v); if rng.bool() { p.insert(i, x); } else { p.push(x); } }
+        5 => if p.len() > 1 { let (i, j) = (rng.usize(0, p.len() - 1), rng.usize(0, p.len() - 1)); p.swap(i, j); }
+        6 => { let code = *rng.pick(&decision); let v = gen_bad_value(rng, code, four);
+            match p.iter_mut().find(|x| x.code == code) { Some(x) => x.val = v, None => { let x = pa(rng, code, v); p.push(x); } } }
+        _ => { let v = vec![10, 0, 0, rng.range(1, 9) as u8]; match p.iter_mut().find(|x| x.code == 3) { Some(x) => x.val = v, None => { let x = pa(rng, 3, v); p.push(x); } } }
+    }
+    p
+}
+
+/// the UPDATE: no withdrawals, the planned attributes, one announced prefix 10.<n>.0.0/16 (with a path id in an ADD-PATH session)
+pub fn plan_pdu(plan: &[PAttr], ap: bool) -> Vec<u8> {
+    let mut attrs = Vec::new();
+    for x in plan {
+        if x.val.len() > 255 || x.ext { attrs.push(x.fl | 0x10); attrs.push(x.code); attrs.extend((x.val.len() as u16).to_be_bytes()); }
+        else { attrs.push(x.fl & !0x10); attrs.push(x.code); attrs.push(x.val.len() as u8); }
+        attrs.extend(&x.val);
+    }
+    let mut nlri = Vec::new();
+    if ap { nlri.extend([0, 0, 0, 1]); }
+    nlri.extend([16, 10, 1]);
+    let len = 19 + 2 + 2 + attrs.len() + nlri.len();
+    let mut p = vec![0xffu8; 16];
+    p.extend((len as u16).to_be_bytes()); p.push(2); p.extend([0, 0]);
+    p.extend((attrs.len() as u16).to_be_bytes()); p.extend(attrs); p.extend(nlri);
+    p
+}
+
+/// the tie-breaker record of a random route (small pools: ties are frequent)
+pub fn random_tb(rng: &mut Rng) -> RouteSpec {
+    let mut r = random_route(rng);
+    r.lp = None; r.path = Slot::Absent; r.origin = Slot::Absent; r.med = None; r.oid = None; r.cl = None; r.extra = 0; r.bogus = 0;
+    r
+}
+
+fn edit_tb(rng: &mut Rng, t: &RouteSpec) -> RouteSpec {
+    let mut b = t.clone();
+    match rng.below(6) {
+        0 => b.ibgp = !b.ibgp,
+        1 => b.dop = if b.dop.is_some() { None } else { Some(100) },
+        2 => b.bgpid = b.bgpid.wrapping_add(1),
+        3 => { b.peer = b.peer.wrapping_add(1); if !b.peer_v6 { b.peer &= 0xffffffff; } }
+        4 => b.lasn = *rng.pick(&[10u32, 20, 65000]),
+        _ => {}
+    }
+    b
+}
+
+/// `n` candidates given as UPDATEs: the first from scratch, each further one from scratch or (mostly) a small edit of
+/// its predecessor's attributes / tie-breakers, now and then in a session of the other AS number width; 1 in 10 is
+/// an UPDATE of C17's generator (all 20 attribute kinds, damaged attributes, rejected UPDATEs)
+pub fn gen_pdu_cands(rng: &mut Rng, n: usize) -> Vec<String> {
+    let mut out = Vec::new();
+    let (_, mut four, mut ap) = crate::props::c17::gen_sess(rng);
+    let mut plan = gen_plan(rng, four);
+    let mut tb = random_tb(rng);
+    for i in 0..n {
+        if i > 0 {
+            match rng.below(10) {
+                0 | 1 => { let s = crate::props::c17::gen_sess(rng); four = s.1; ap = s.2; plan = gen_plan(rng, four); tb = random_tb(rng); }
+                2 => tb = random_tb(rng),
+                3 | 4 => tb = edit_tb(rng, &tb),
+                5 => {}                                                     // the same route again
+                _ => { plan = edit_plan(rng, &plan, four); if rng.chance(1, 3) { tb = edit_tb(rng, &tb); } }
+            }
+        }
+        // an eBGP route needs a neighbour AS: most routes whose AS_PATH names none are presented as learned over iBGP
+        if !tb.ibgp && rng.chance(2, 3) {
+            let nb = plan.iter().find(|x| x.code == 2).and_then(|x| own_path(&x.val, if four { 4 } else { 2 }))
+                .map_or(false, |h| matches!(h.first(), Some(HopSpec::Asn(_))));
+            if !nb { tb.ibgp = true; }
+        }
+        if rng.chance(1, 10) {
+            let conv = rng.bool();
+            let p = crate::props::c17::gen_pdu_s(rng, conv, false, four, ap);
+            let p = if rng.chance(1, 3) { crate::props::c17::mutate_attrs(rng, p) } else { p };
+            out.push(show_pdu_cand(four, ap, &p, &tb));
+        } else {
+            out.push(show_pdu_cand(four, ap, &plan_pdu(&plan, ap), &tb));
+        }
+    }
+    out
 }
 
 // ---------------------------------------------------------------- generators
 
 pub fn base_route() -> RouteSpec {
     RouteSpec { ibgp: false, dop: None, lp: None, path: Slot::Val(vec![HopSpec::Asn(10), HopSpec::Asn(20)]), origin: Slot::Val(0),
-        med: None, lasn: 65000, oid: None, bgpid: 5, cl: None, peer_v6: false, peer: 0x0a000001, extra: 0, bogus: 0 }
+        med: None, lasn: 65000, oid: None, bgpid: 5, cl: None, peer_v6: false, peer: 0x0a000001, extra: 0, bogus: 0, rest: vec![] }
 }
 
 pub fn path_of(s: &str) -> Slot<Vec<HopSpec>> {
@@ -424,7 +871,7 @@ fn lattice(srcs: &[bool], dops: &[Option<u32>], lps: &[Option<u32>], paths: &[&s
     let mut v = Vec::new();
     for &ibgp in srcs { for &dop in dops { for &lp in lps { for p in paths { for &o in origins { for &med in meds {
     for &(oid, bgpid) in ids { for &cl in cls { for &(peer_v6, peer) in peers { for &lasn in lasns {
-        v.push(RouteSpec { ibgp, dop, lp, path: path_of(p), origin: Slot::Val(o), med, lasn, oid, bgpid, cl, peer_v6, peer, extra: 0, bogus: 0 });
+        v.push(RouteSpec { ibgp, dop, lp, path: path_of(p), origin: Slot::Val(o), med, lasn, oid, bgpid, cl, peer_v6, peer, extra: 0, bogus: 0, rest: vec![] });
     } } } } } } } } } }
     v
 }
@@ -470,6 +917,7 @@ pub fn random_route(rng: &mut Rng) -> RouteSpec {
         peer: 0,
         extra: if rng.chance(1, 4) { rng.range(1, 3) as u32 } else { 0 },
         bogus: 0,
+        rest: vec![],
     };
     let mut r = r;
     // now and then an optional attribute's type code holds an Invalid attribute
@@ -558,6 +1006,18 @@ impl Prop for C10 {
             v.push(format!("tri {} {} {} {}", rng.pick(&STRATS), show_route(&a), show_route(&b), show_route(&c)));
         }
         for _ in 0..2000 * k { v.push(format!("try {} {}", rng.pick(&STRATS), show_route(&random_route(rng)))); }
+        // ---- routes given as received UPDATEs: from_octets -> PaMap::from_update_pdu -> try_new -> cmp
+        // (lines of ~500 octets: the thorough tier takes 20x, not 100x)
+        let k = if tier == Tier::Thorough { 20 } else { 1 };
+        for _ in 0..6000 * k { let c = gen_pdu_cands(rng, 2); v.push(format!("ucmp {} {}", rng.pick(&STRATS), c.join(" "))); }
+        for _ in 0..1500 * k { let c = gen_pdu_cands(rng, 3); v.push(format!("utri {} {}", rng.pick(&STRATS), c.join(" "))); }
+        for _ in 0..1500 * k { let c = gen_pdu_cands(rng, 1); v.push(format!("utry {} {}", rng.pick(&STRATS), c[0])); }
+        // a route from the wire against a route built through the API
+        for _ in 0..1000 * k {
+            let c = gen_pdu_cands(rng, 1);
+            let a = show_route(&random_route(rng));
+            if rng.bool() { v.push(format!("ucmp {} {} {}", rng.pick(&STRATS), a, c[0])); } else { v.push(format!("ucmp {} {} {}", rng.pick(&STRATS), c[0], a)); }
+        }
         v
     }
 
@@ -574,6 +1034,24 @@ impl Prop for C10 {
                 let mut specs = Vec::new();
                 for r in rest { match parse_route(r) { Some(r) => specs.push(r), None => return "bad-op".into() } }
                 match *s { "skipmed" => cmp_line::<SkipMed>(&specs), "rfc4271" => cmp_line::<Rfc4271>(&specs), _ => "bad-op".into() }
+            }
+            ["utry", s, a] => {
+                let Some(c) = parse_cand(a) else { return "bad-op".into() };
+                if !STRATS.contains(s) { return "bad-op".into(); }
+                match build_all(&[c]) {
+                    Err(e) => if e == "pmerr" { e } else { "rej".into() },
+                    Ok(b) => match *s { "skipmed" => refusal::<SkipMed>(&b[0].0, b[0].1), _ => refusal::<Rfc4271>(&b[0].0, b[0].1) }.into(),
+                }
+            }
+            ["ucmp", s, rest @ ..] | ["utri", s, rest @ ..] => {
+                if rest.len() != if w[0] == "ucmp" { 2 } else { 3 } { return "bad-op".into(); }
+                let mut cands = Vec::new();
+                for r in rest { match parse_cand(r) { Some(c) => cands.push(c), None => return "bad-op".into() } }
+                if !STRATS.contains(s) { return "bad-op".into(); }
+                match build_all(&cands) {
+                    Err(e) => e,
+                    Ok(b) => match *s { "skipmed" => cmp_built::<SkipMed>(&b), _ => cmp_built::<Rfc4271>(&b) },
+                }
             }
             ["hops", p] => {
                 let Some(r) = parse_route(&format!("i,-,-,{},0,-,1,-,1,-,4:1,0", p)) else { return "bad-op".into() };
@@ -622,54 +1100,30 @@ impl Prop for C10 {
                 // (either, where the property is silent: undefined ORIGIN value, Invalid optional attribute)
                 judge_construction(&a, reply)
             }
+            // routes given as received UPDATEs: the same judgement, on this file's own reading of the PDU.  Whether
+            // an UPDATE is accepted at all is C01 / C02 / C17's subject (`rej`), as is `from_update_pdu` (`pmerr`)
+            ["utry", _, a] => {
+                if reply == "rej" || reply == "pmerr" { return Ok(()); }
+                let Some(sp) = cand_specs(&[parse_cand(a).unwrap()]) else { return Ok(()) };
+                judge_construction(&sp[0], reply)
+            }
+            ["ucmp", s, a, b] => {
+                if r[0] == "rej" || r[0] == "pmerr" { return Ok(()); }
+                let Some(sp) = cand_specs(&[parse_cand(a).unwrap(), parse_cand(b).unwrap()]) else { return Ok(()) };
+                judge_cmp(s, &sp[0], &sp[1], &r)
+            }
+            ["utri", s, a, b, c] => {
+                if r[0] == "rej" || r[0] == "pmerr" { return Ok(()); }
+                let Some(sp) = cand_specs(&[parse_cand(a).unwrap(), parse_cand(b).unwrap(), parse_cand(c).unwrap()]) else { return Ok(()) };
+                judge_tri(s, &sp, &r)
+            }
             ["cmp", s, a, b] => {
                 let (a, b) = (parse_route(a).unwrap(), parse_route(b).unwrap());
-                let el = [ref_eligible(&a), ref_eligible(&b)];
-                if r[0] == "refused" {
-                    if r.len() != 3 { return Err("reply".into()); }
-                    for (i, x) in [&a, &b].iter().enumerate() { judge_construction(x, r[1 + i]).map_err(|e| format!("route {}: {}", i, e))?; }
-                    return Ok(());
-                }
-                if !(el[0] && el[1]) { return Err("an ineligible route reached comparison".into()); }
-                let med = *s == "rfc4271";
-                let want = rfc_prefer(&a, &b, med);
-                if r.len() != 4 { return Err("reply".into()); }
-                let (ab, ba) = (parse_ord(r[0]).ok_or("reply")?, parse_ord(r[2]).ok_or("reply")?);
-                if ab != want { return Err(format!("cmp = {} but RFC 4271 9.1 elimination gives {}", r[0], ord(want))); }
-                if ba != ab.reverse() { return Err(format!("antisymmetry: cmp(a,b) = {}, cmp(b,a) = {}", r[0], r[2])); }
-                if (r[1] == "same") != (ab == Ordering::Equal) { return Err("== disagrees with cmp".into()); }
-                if r[3] != r[0] { return Err("partial_cmp disagrees with cmp".into()); }
-                if a == b && ab != Ordering::Equal { return Err("a route is not equal to itself".into()); }
-                Ok(())
+                judge_cmp(s, &a, &b, &r)
             }
             ["tri", s, a, b, c] => {
                 let rs = [parse_route(a).unwrap(), parse_route(b).unwrap(), parse_route(c).unwrap()];
-                if r[0] == "refused" {
-                    if r.len() != 4 { return Err("reply".into()); }
-                    for i in 0..3 { judge_construction(&rs[i], r[1 + i]).map_err(|e| format!("route {}: {}", i, e))?; }
-                    return Ok(());
-                }
-                if !rs.iter().all(ref_eligible) { return Err("an ineligible route reached comparison".into()); }
-                if r.len() != 3 { return Err("reply".into()); }
-                let med = *s == "rfc4271";
-                let o: Vec<Ordering> = r.iter().map(|x| parse_ord(x).ok_or("reply")).collect::<Result<_, _>>()?;
-                let (ab, bc, ac) = (o[0], o[1], o[2]);
-                for (got, (x, y), nm) in [(ab, (0, 1), "ab"), (bc, (1, 2), "bc"), (ac, (0, 2), "ac")] {
-                    let want = rfc_prefer(&rs[x], &rs[y], med);
-                    if got != want { return Err(format!("cmp {} = {} but RFC elimination gives {}", nm, ord(got), ord(want))); }
-                }
-                if !med {
-                    // strict weak order: < transitive, equivalence transitive, equivalence compatible with <
-                    use Ordering::*;
-                    let want_ac = match (ab, bc) {
-                        (Less, Less) | (Less, Equal) | (Equal, Less) => Some(Less),
-                        (Greater, Greater) | (Greater, Equal) | (Equal, Greater) => Some(Greater),
-                        (Equal, Equal) => Some(Equal),
-                        _ => None,
-                    };
-                    if let Some(w) = want_ac { if ac != w { return Err(format!("weak order law broken: ab={} bc={} ac={}", r[0], r[1], r[2])); } }
-                }
-                Ok(())
+                judge_tri(s, &rs, &r)
             }
             ["wire-malformed", ..] => {
                 if reply == "ok" { Err("a route without valid ORIGIN / AS_PATH was accepted for comparison".into()) } else { Ok(()) }
@@ -688,7 +1142,7 @@ impl Prop for C10 {
         }
     }
 
-    fn nontrivial(&self, _line: &str, reply: &str) -> bool { reply != "bad-op" && !reply.starts_with("refused") }
+    fn nontrivial(&self, _line: &str, reply: &str) -> bool { reply != "bad-op" && !reply.starts_with("refused") && !reply.starts_with("rej") && reply != "pmerr" }
 
     fn class(&self, line: &str, reply: &str) -> String {
         let w: Vec<&str> = line.split(' ').collect();
@@ -702,9 +1156,44 @@ impl Prop for C10 {
                 let (a, b) = (parse_route(w[2]), parse_route(w[3]));
                 match (a, b) { (Some(a), Some(b)) => format!("cmp:{}:decided-at-{}", s, deciding_step(&a, &b, s == "rfc4271")), _ => "cmp:bad".into() }
             }
+            "ucmp" | "utri" | "utry" => {
+                let s = w.get(1).copied().unwrap_or("");
+                let cands: Option<Vec<Cand>> = w[2..].iter().map(|t| parse_cand(t)).collect();
+                let Some(cands) = cands else { return format!("{}:bad", op) };
+                let feat = pdu_feature(&cands);
+                let r0 = reply.split(' ').next().unwrap_or("");
+                let special = feat.starts_with("repeated") || feat.starts_with("malformed");
+                if matches!(r0, "refused" | "rej" | "pmerr" | "panic" | "bad-op") || op == "utry" { return format!("{}:{}:{}", op, r0, feat); }
+                if op == "utri" || special { return format!("{}:compared:{}", op, feat); }
+                match cand_specs(&cands) { Some(sp) => format!("ucmp:{}:decided-at-{}", s, deciding_step(&sp[0], &sp[1], s == "rfc4271")), None => "ucmp:unwalkable".into() }
+            }
             _ => format!("{}:{}", op, reply.split(' ').next().unwrap_or("")),
         }
     }
+}
+
+/// what is special about the UPDATEs of a line (the first that applies): a decision attribute repeated, a decision
+/// attribute malformed, an AS4_PATH next to the AS_PATH, a two-octet session, nothing
+fn pdu_feature(cands: &[Cand]) -> String {
+    let mut two = false;
+    let mut as4 = false;
+    let mut bad: Option<u8> = None;
+    let mut rep: Option<u8> = None;
+    for c in cands {
+        let Cand::Pdu(p) = c else { continue };
+        two |= !p.four;
+        let Some(attrs) = own_walk(&p.pdu) else { return "unwalkable".into() };
+        for code in [1u8, 2, 4, 5, 9, 10] {
+            let n = attrs.iter().filter(|a| a.1 == code).count();
+            if n > 1 && rep.is_none() { rep = Some(code); }
+            if let Some(a) = attrs.iter().find(|a| a.1 == code) { if own_valid(code, &a.2, p.four) == Some(false) && bad.is_none() { bad = Some(code); } }
+        }
+        as4 |= attrs.iter().any(|a| a.1 == 17) && attrs.iter().any(|a| a.1 == 2);
+    }
+    if let Some(c) = rep { return format!("repeated-{}", c); }
+    if let Some(c) = bad { return format!("malformed-{}", c); }
+    if as4 { return "as4path".into(); }
+    if two { "two-octet".into() } else { "plain".into() }
 }
 
 /// a small edit of one field of `a` (keeps most of the decision prefix tied)
